@@ -419,14 +419,19 @@ void ICACHE_FLASH_ATTR supla_esp_mqtt_conn_recv_cb(void *arg, char *pdata,
   // supla_esp_mqtt_conn_recv_cb callback cannot interrupt mqtt_sync(). If it
   // turns out otherwise, you have to use an additional intermediate buffer.
 
-  if (len + supla_esp_mqtt_vars->recv_len > MQTT_RECVBUF_SIZE) {
+  // The client keeps an incomplete packet at the start of recvbuf and expects
+  // new bytes at recv_buffer.curr, so the segment is stored behind it.
+  size_t kept = supla_esp_mqtt_vars->client.recv_buffer.curr -
+                supla_esp_mqtt_vars->client.recv_buffer.mem_start;
+
+  if (kept + len + supla_esp_mqtt_vars->recv_len > MQTT_RECVBUF_SIZE) {
     supla_log(LOG_DEBUG, "MQTT recv buffer is too small! %i",
-              len + supla_esp_mqtt_vars->recv_len - MQTT_RECVBUF_SIZE);
+              kept + len + supla_esp_mqtt_vars->recv_len - MQTT_RECVBUF_SIZE);
     return;
   }
 
-  memcpy(&supla_esp_mqtt_vars->recvbuf[supla_esp_mqtt_vars->recv_len], pdata,
-         len);
+  memcpy(&supla_esp_mqtt_vars->recvbuf[kept + supla_esp_mqtt_vars->recv_len],
+         pdata, len);
   supla_esp_mqtt_vars->recv_len += len;
 
   mqtt_sync(&supla_esp_mqtt_vars->client);
